@@ -17,7 +17,7 @@ ASSUMPTIONS = [
 ]
 REQUIRED_COUNTERS = ["optimal.cpl", "optimal.cp", "optimal.gp", "family.quad", "family.neglog", "family.entropy", "family.lse",
                      "family.cpl-quad", "family.gp", "backtrack-on-None", "cp-vs-coneqp", "gp-vs-cp", "Fxz-calls-checked",
-                     "kkt.ldl", "kkt.ldl2", "kkt.chol", "kkt.chol2", "sparse-Df", "restricted-domain", "zero-optimum"]
+                     "kkt.ldl", "kkt.ldl2", "kkt.chol", "kkt.chol2", "sparse-Df", "restricted-domain", "zero-optimum", "junk-upper-triangles-in-G-h"]
 
 
 def plan(tier):
@@ -197,6 +197,12 @@ def run(ctx):
                 nl.zero_optimum(pr, entry, xs0, p0)
                 zero_opt = True
                 ctx.count("zero-optimum")
+        if d.s and rng.random() < 0.4:
+            # 'L' storage: the strict upper triangles of the 's' blocks of G's columns and of h are not referenced
+            mag = rng.choice([0.0, 0.0, 50.0])       # zeros (lower triangle only) or unrelated numbers
+            pr.G = gp.add_junk(rng, pr.G, d, mag)
+            pr.h = gp.add_junk(rng, pr.h, d, mag)
+            ctx.count("junk-upper-triangles-in-G-h")
         restricted = False
         if entry != "gp" and rng.random() < 0.2:
             # artificially restricted convex domain around the planted point (forces None answers in the line search)
